@@ -110,6 +110,16 @@ def _include_case(item):
     inc = (a + '/x.lua') if a != '' and not a.endswith('/') else (a + 'x.lua')
     with open(cart, 'wb') as f:
         f.write(b'pico-8 cartridge // http://www.pico-8.com\nversion 8\n__lua__\n#include ' + inc.encode() + b'\ny=2\n__gfx__\n')
+    # a canary also where a loader that resolves the string against the include ROOT (not the cart's directory) would look
+    if not inc.startswith('/'):
+        alt = os.path.normpath(os.path.join(S, *case['root'], inc))
+        if alt.startswith(S + os.sep) and not os.path.exists(alt):
+            try:
+                os.makedirs(os.path.dirname(alt), exist_ok=True)
+                with open(alt, 'wb') as f:
+                    f.write(b'canary_root_relative=1\n')
+            except OSError:
+                pass
     old_home = os.environ.get('HOME')
     os.environ['HOME'] = os.path.join(S, 'home')
     _A.update(on=True, root=S, opens=[])
